@@ -1,6 +1,6 @@
 """C05 XML export/import round trip (writer/reader agreement)."""
 from prog import Program
-import effects, flags, xmltab, lists, snp
+import effects, flags, xmltab, lists, snp, slots
 
 
 def run(chk, tier):
@@ -22,6 +22,9 @@ def run(chk, tier):
     chk.rule("R-XMLSLOTS", "both backends fill every callback slot")
     nl = xmltab.slots(chk, P)
     chk.floor("R-XMLSLOTS", "slot facts", nl, 14)
+    chk.rule("R-SLOTLEN", "the two XML backends agree on length-delimited text buffers: an implementation of a callback slot that reads a (buffer, length) pair uses the length whenever its sibling does")
+    nsl = slots.run(chk, P, E, records=("hwloc__xml_export_state_s", "hwloc_xml_backend_data_s", "hwloc_xml_callbacks"))
+    chk.floor("R-SLOTLEN", "(implementation, buffer/length pair) facts", nsl, 6)
     chk.rule("R-REFRESHFIRST", "export refreshes distances before walking them; file and buffer variants make the same preparatory calls")
     lists.refresh_first(chk, P)
     lists.sibling_prep(chk, P, [("hwloc_topology_export_xml", "hwloc_topology_export_xmlbuffer", "topology-xml.c"),
@@ -32,7 +35,8 @@ def run(chk, tier):
     r = snp.SnpRule(P, ["topology-xml-nolibxml.c"])
     st = r.run(chk)
     chk.floor("R-SNP", "producer call sites in the built-in exporter", st["producers"], 10)
-    chk.decided += ["nothing that is exported is ignored on import (attribute names and child tags, per element)", "every support bit is carried",
+    chk.decided += ["element content (userdata, value arrays) is written with exactly the announced length by both backends",
+                    "nothing that is exported is ignored on import (attribute names and child tags, per element)", "every support bit is carried",
                     "what the built-in backend escapes it unescapes", "both backends implement the whole interface", "exports start from refreshed distances; file/buffer variants agree"]
     chk.undecided += ["equality of values after the trip, byte-identical re-export", "libxml2's own behaviour", "the v2 downgrade mapping tables"]
     chk.trusted += ["clang 14 front end", "the element -> import function table in rules/xmltab.py (confirmed by reading)"]
